@@ -1490,7 +1490,7 @@ static int state_check_process(struct snapraid_state* state, int fix, struct sna
 
 			/* stat the file */
 			pathprint(path, sizeof(path), "%s%s", disk->dir, file->sub);
-			ret = stat(path, &st);
+			ret = lstat(path, &st);
 			if (ret == -1) {
 				unsuccessful = 1;
 
@@ -1598,7 +1598,7 @@ static int state_check_process(struct snapraid_state* state, int fix, struct sna
 			if (link_flag_has(slink, FILE_IS_HARDLINK)) {
 				/* stat the link */
 				pathprint(path, sizeof(path), "%s%s", disk->dir, slink->sub);
-				ret = stat(path, &st);
+				ret = lstat(path, &st);
 				if (ret == -1) {
 					unsuccessful = 1;
 
@@ -1614,7 +1614,7 @@ static int state_check_process(struct snapraid_state* state, int fix, struct sna
 
 				/* stat the "to" file */
 				pathprint(pathto, sizeof(pathto), "%s%s", disk->dir, slink->linkto);
-				ret = stat(pathto, &stto);
+				ret = lstat(pathto, &stto);
 				if (ret == -1) {
 					unsuccessful = 1;
 
@@ -1764,7 +1764,7 @@ static int state_check_process(struct snapraid_state* state, int fix, struct sna
 
 			/* stat the dir */
 			pathprint(path, sizeof(path), "%s%s", disk->dir, dir->sub);
-			ret = stat(path, &st);
+			ret = lstat(path, &st);
 			if (ret == -1) {
 				unsuccessful = 1;
 
